@@ -14,7 +14,8 @@ NOTES = ("Contract-based deductive verification (pyvc). Every claimed check is a
 PROPERTIES = {
     "C05": {
         "claim": "Proof, for the RTP/RTCP wire parsers under contract (rtp.py: unpack_remb_fci, unpack_header_extensions, "
-                 "unpack_packets_lost, RtcpReceiverInfo.parse, RtcpSenderInfo.parse, is_rtcp; rtcsctptransport.py: "
+                 "unpack_packets_lost, RtcpReceiverInfo.parse, RtcpSenderInfo.parse, RtcpPsfbPacket.parse, RtcpByePacket.parse, "
+                 "is_rtcp; rtcsctptransport.py: "
                  "decode_params, the DATA/SACK/FORWARD-TSN/INIT/SHUTDOWN/params chunk constructors, the three RFC 6525 "
                  "parameter parsers; codecs/vpx.py: VpxPayloadDescriptor.parse), that for every byte string they return or "
                  "raise ValueError only (no struct.error/IndexError/TypeError) and every loop terminates (decreases "
@@ -32,7 +33,8 @@ PROPERTIES = {
         "claim": "Proof of the fixed-layout RTCP building blocks: RtcpReceiverInfo and RtcpSenderInfo parse(bytes(x)) == x "
                  "for all in-range field values, 24-bit signed loss clamp/pack/unpack round trip and saturation, REMB "
                  "FCI encoder (mantissa = bitrate >> exponent with minimal exponent: never rounds up, relative error "
-                 "< 2^-17) and decoder, pack_rtcp_packet header layout, header-extension pack/unpack shape facts. "
+                 "< 2^-17) and decoder, pack_rtcp_packet header layout, payload-specific feedback (PSFB) serialise/parse round "
+                 "trip on every field, BYE source list decoding, header-extension pack/unpack shape facts. "
                  "Reduced: RtpPacket/compound RtcpPacket serialise/parse, NACK and RTX are not under contract.",
         "note": "Round trip is proved as composition lemmas (harnesses) over the callee contracts; wire-range "
                 "preconditions (fields fit their widths) are stated in requires. Whole-packet round trips are not decided.",
